@@ -40,7 +40,7 @@ def one(seed, checks, threads):
             res[c] = {"exit": rc, "kind": kind.group(1) if kind else "", "inconclusive": inc[:200], "secs": round(time.time() - t0, 1)}
     finally:
         sh(f"git -C /repo worktree remove --force {wt}"); shutil.rmtree(wt, ignore_errors=True)
-        for d in (f"{VERIF}/harness/target-mut-cross-{seed}", f"{VERIF}/harness/target-mut-cross-{seed}-rel", f"/tmp/cross/ev-{seed}", f"/tmp/cross/rp-{seed}"):
+        for d in (f"{VERIF}/harness/target-mut-cross-{seed}", f"{VERIF}/harness/target-mut-cross-{seed}-rel", f"{VERIF}/harness/target-mut-cross-{seed}-fuzz", f"/tmp/cross/ev-{seed}", f"/tmp/cross/rp-{seed}"):
             shutil.rmtree(d, ignore_errors=True)
     return seed, res
 
